@@ -260,7 +260,8 @@ example : kidsPaths (.cons "a" (.items []) (.cons "b" (.group (.cons "c" (.items
     a bare value `a` becomes `[str(i+1), a]`, a list without a label of its own gets `str(i+1)`
     appended, a list with a label is left alone; the default options are the first dict of the
     list wherever it stands.  Moving or inserting a dict block does not renumber anything, and
-    a number is never mistaken for a scientific-notation string. -/
+    the number `str(i+1)` is never converted by `convert_scientific_to_float` (it has no exponent, so it
+    is not a scientific-notation number; see `scientific_string_converted_iff_whole`). -/
 theorem numbering_spec (T : FloatTab) (key : String) (xs : List Item) :
     (flattenItems T key xs).length = (nonDict xs).length ∧
     (∀ i, (flattenItems T key xs)[i]? =
@@ -342,8 +343,9 @@ theorem dict_eq_programmatic_counterexample :
   decide +kernel
 
 /-- **An item without a label of its own is labelled with its number** — in a flat list and in a
-    group alike: if the sanitized definition holds no str (a scientific-notation string counts
-    as the number it denotes), the definition handed to `Parameter.from_list` is the item with
+    group alike: if the sanitized definition holds no str (a string that is a scientific-notation
+    number in full counts as the number it denotes; a string that only starts like one, `1e3x`, is a
+    str and is the label), the definition handed to `Parameter.from_list` is the item with
     `str(i+1)` appended, its label is `str(i+1)`, and value and options are what they were. -/
 theorem auto_label_spec (T : FloatTab) (l vs : List Atom) (i : Nat) (hsan : sanitize T l = .ok vs)
     (hno : vs.any isStr = false) :
@@ -369,6 +371,51 @@ example : fromList (fun _ => none) C12.F0 (fun t => if t = "3e2" then some (some
     = .ok [{ label := "1", value := .fin 1, nonNeg := true }, { label := "2", value := .fin 300, nonNeg := true },
            { label := "foo", value := .fin 4, nonNeg := true }] := by decide +kernel
 
+/-- **Only a string that is a scientific-notation number in full is converted** (`number_scientific` is
+    applied with `fullmatch` since the `fix:` commit e7da7c2; before, a number-like prefix was enough and
+    `float()` raised on the rest).  `SciNumber` (Lemmas) is the language of the pattern
+    `[-+]?[0-9]*\.?[0-9]+([eE][-+]?[0-9]+)`: sign, digits with an optional fraction, exponent letter, sign, digits,
+    nothing else.  The scanner of the model accepts exactly these strings; for them the element becomes
+    `float(s)` (or the error `float` raises — never for Python's `float`, every such string is a float literal);
+    every other string is returned unchanged whatever `float` would do with it — in particular every string
+    that does not end in a digit (`1e3x`, `2e5_data.nc`, `1e3 `). -/
+theorem scientific_string_converted_iff_whole (T : FloatTab) (s : String) :
+    (sciMatch s = true ↔ SciNumber s.toList) ∧
+    (SciNumber s.toList →
+      (∀ x, T s = some (some x) → sanitizeAtom T (.cell (.str s)) = .ok (.cell (.flt x))) ∧
+      (T s = some none → sanitizeAtom T (.cell (.str s)) = .error (.floatError s))) ∧
+    (¬ SciNumber s.toList → sanitizeAtom T (.cell (.str s)) = .ok (.cell (.str s))) ∧
+    (∀ c, s.toList.getLast? = some c → isDigit c = false →
+      sanitizeAtom T (.cell (.str s)) = .ok (.cell (.str s))) := by
+  refine ⟨sciMatch_iff s, sanitizeAtom_converted T s, sanitizeAtom_kept T s, ?_⟩
+  intro c hc hd
+  apply sanitizeAtom_kept
+  intro h
+  obtain ⟨d, hd', hdig⟩ := sciNumber_getLast h
+  rw [hc] at hd'
+  cases hd'
+  rw [hd] at hdig
+  cases hdig
+
+/-- `-.5E+07` is a number in full: sign, no integer digits, fraction, exponent with sign -/
+example : SciNumber "-.5E+07".toList :=
+  ⟨['-'], [], ['.', '5'], 'E', ['+'], ['0', '7'], (by decide), Or.inr (Or.inr rfl), (by intro c hc; cases hc),
+    Or.inr ⟨['5'], rfl, (by decide), (by decide)⟩, Or.inr rfl, Or.inr (Or.inl rfl), (by decide), (by decide)⟩
+
+/-- regression example of the repair: `1e3x` (a label, a file name) starts like a number and is left alone —
+    with any `float`, also one that would raise on it; so are `1e3 `, `1e3e4`, `1e+`; `1e3` is converted -/
+example (T : FloatTab) : sanitizeAtom T (.cell (.str "1e3x")) = .ok (.cell (.str "1e3x")) :=
+  (scientific_string_converted_iff_whole T "1e3x").2.2.2 'x' (by decide) (by decide)
+
+example : sciMatch "1e3x" = false ∧ sciMatch "1e3 " = false ∧ sciMatch "1e3e4" = false ∧ sciMatch "1e+" = false ∧
+    sciMatch "2e5_data.nc" = false ∧ sciMatch "1e3" = true ∧ sciMatch "-.5E+07" = true ∧ sciMatch "12.34e56" = true := by
+  decide
+
+set_option maxRecDepth 4000 in
+/-- … and is the label of its parameter, where the prefix match made `Parameters.from_list` raise -/
+example : fromList (fun _ => none) C12.F0 (fun t => if t = "1e3x" then some none else none)
+    [.lst [.cell (.str "1e3x"), .cell (.flt (.fin 2))]] = .ok [{ label := "1e3x", value := .fin 2 }] := by decide +kernel
+
 /-! ### the source text of the specification functions is the model
 
 `Generated.Fns.*` (lean/GlotaranModel/Generated/C16Fns.lean) is regenerated on every run from the Python source
@@ -383,13 +430,16 @@ def env0 : Py.Env :=
   { parse := fun _ => none, F := C12.F0, T := fun t => if t = "3e2" then some (some (.fin 300)) else none }
 
 /-- `convert_scientific_to_float(value)` is the model's conversion of a str atom: `float(value)` when
-    `number_scientific` matches a prefix, the string otherwise. -/
+    `number_scientific` matches the whole string (`fullmatch`, translated to the scanner `sciMatch`), the
+    string otherwise.  A source that applies the pattern with `match` again is outside the translated
+    subset and this theorem does not build. -/
 theorem generated_convert_scientific_to_float_eq_model (env : Py.Env) (value : String) :
     Generated.Fns.convert_scientific_to_float env value = sanitizeAtom env.T (.cell (.str value)) :=
   convert_eq env value
 
 example : Generated.Fns.convert_scientific_to_float env0 "3e2" = .ok (.cell (.flt (.fin 300))) ∧
-    Generated.Fns.convert_scientific_to_float env0 "k3e2" = .ok (.cell (.str "k3e2")) := by decide +kernel
+    Generated.Fns.convert_scientific_to_float env0 "k3e2" = .ok (.cell (.str "k3e2")) ∧
+    Generated.Fns.convert_scientific_to_float env0 "3e2x" = .ok (.cell (.str "3e2x")) := by decide +kernel
 
 /-- `sanitize_parameter_list` (the in-place loop over the list) is `sanitize`: element by element, only
     str elements are touched, the first `float()` that raises is the error. -/
